@@ -991,10 +991,10 @@ func init() {
 			"several rows for the same slot of a fixed-length bucket inside one request, Jan 1 of 1D buckets and requests spanning years are left to C08",
 		},
 		Cases:        c25cases,
-		Batch:        10,
+		Batch:        8,
 		Run:          c25run,
 		Need:         []string{"rows_compared", "tgs_replayed", "rows_compared_fixed", "rows_compared_variable", "multi_file_tgs", "ranged_queries_compared"},
-		BatchTimeout: 15 * time.Minute,
+		BatchTimeout: 45 * time.Minute,
 		MinDistinct:  20,
 	})
 }
